@@ -73,10 +73,10 @@ impl Monitor for C06 {
         "cases = seeded universes biased to what makes hash order observable (many packages / candidates per conflict, large merge groups, Unsolvable results) solved with a non-yielding provider; (a) in-process: 3 fresh solver instances (each hash map gets its own random ahash seed) must return the identical solution vector (order included) or the identical user-friendly message and graphviz text (plain and simplified); (b) cross-process: the same cases are run in several separate processes (different ahash seeds, heap addresses, ASLR) and the per-case digests are compared by the check driver. distinct = content hash; non-trivial = distinct Unsolvable case whose message contains a merged group ('|') or Ok case with >= 4 solvables".into()
     }
     fn cases(&self, tier: Tier) -> u64 {
-        tier.pick(12_000, 400_000)
+        tier.pick(96_000, 1_920_000)
     }
     fn floor(&self, tier: Tier) -> u64 {
-        tier.pick(1_000, 40_000)
+        tier.pick(4_000, 40_000)
     }
     fn generate(&self, r: &mut Rng, _tier: Tier, _i: u64) -> SolverCase {
         let (name, _) = pick_family(r, FAMILIES);
